@@ -1,25 +1,39 @@
 #!/usr/bin/env python3
 """Development aid: (re)generates selftest/canaries.json — for every property, the fact-level perturbations (perturb.py) that the
-rules detect on the current tree. The thorough tier re-checks them: a canary that still exists but is no longer detected means the
-checker lost sight of something it used to see."""
+rules detect on the current tree, together with the identity (`scope`) of the analysed bodies. The thorough tier re-checks them when
+the analysed code is the code they were recorded on: a canary that is no longer detected there means the checker lost sight of
+something it used to see."""
 import json, os, sys
+from multiprocessing import Pool
 HERE = os.path.dirname(os.path.dirname(os.path.abspath(__file__)))
 sys.path.insert(0, os.path.join(HERE, 'engine', 'py'))
 from ddoverif import extract, perturb, props
 
-doc, _ = extract.extract('dev')
-out = {}
-only = sys.argv[1:]
-cf = os.path.join(HERE, 'selftest', 'canaries.json')
-if os.path.isfile(cf):
-    out = json.load(open(cf))
-for p in sorted(props.PROPS):
-    if only and p not in only:
-        continue
+
+def one(p):
+    doc, _ = extract.extract('dev')
     r = perturb.run(doc, props.PROPS[p]['fn'], p, canaries=[], cap=250)
-    # keep at most 60 canaries per property, spread over the bodies
-    det = []
-    # perturb.run only reports a sample; recompute the full detected list
-    out[p] = sorted(set(r['detected_all']))[:80] if 'detected_all' in r else r['detected_sample']
-    print(p, r['generated'], r['detected'], len(out[p]))
-json.dump(out, open(cf, 'w'), indent=0, sort_keys=True)
+    # at most 80 canaries per property, spread over the bodies (round robin)
+    by_body = {}
+    for k in sorted(set(r['detected_all'])):
+        by_body.setdefault(k.split('|')[0], []).append(k)
+    keep = []
+    while len(keep) < 80 and any(by_body.values()):
+        for b in sorted(by_body):
+            if by_body[b] and len(keep) < 80:
+                keep.append(by_body[b].pop(0))
+    print(p, r['generated'], r['detected'], len(keep), flush=True)
+    return p, {'scope': r['scope'], 'canaries': sorted(keep)}
+
+
+if __name__ == '__main__':
+    only = sys.argv[1:]
+    cf = os.path.join(HERE, 'selftest', 'canaries.json')
+    out = json.load(open(cf)) if os.path.isfile(cf) else {}
+    out = {k: v for k, v in out.items() if isinstance(v, dict)}
+    extract.extract('dev')
+    todo = [p for p in sorted(props.PROPS) if not only or p in only]
+    with Pool(8) as pool:
+        for p, rec in pool.imap_unordered(one, todo):
+            out[p] = rec
+    json.dump(out, open(cf, 'w'), indent=0, sort_keys=True)
